@@ -8,6 +8,7 @@ import (
 	"encoding/json"
 	"fmt"
 	"os"
+	"runtime"
 )
 
 type entry struct {
@@ -114,6 +115,18 @@ func OneOf(b byte, set string) bool {
 		}
 	}
 	return false
+}
+
+// NoLargeAlloc runs fn and fails (label "alloc-limit") if it allocates more than limit
+// bytes in a single make/append. Natively the total allocation of fn is measured.
+func NoLargeAlloc(limit int, fn func()) {
+	var a, b runtime.MemStats
+	runtime.ReadMemStats(&a)
+	fn()
+	runtime.ReadMemStats(&b)
+	if b.TotalAlloc-a.TotalAlloc > uint64(limit)+1<<20 {
+		panic(Violation{"alloc-limit"})
+	}
 }
 
 // Go starts fn as a thread of the scenario.
